@@ -87,6 +87,27 @@ class StmtMixin:
         if self.paths > self.MAX_PATHS:
             raise OutOfSubset('path budget exceeded', node)
         line = getattr(node, 'lineno', 0)
+        if isinstance(node, ast.Expr) and isinstance(node.value, ast.Yield):
+            # generator: the function's result is the sequence of yielded values; each yield is
+            # checked against the contract's yield_asserts (with `yielded` bound)
+            c = self.m.contracts[self.cur_fn_stack[0]]
+            if node.value.value is None:
+                yield st, NORMAL
+                return
+            for s1, v in self.ev(node.value.value, st):
+                if isinstance(v, Exc):
+                    yield s1, self.raise_out(v)
+                    continue
+                for j, e in enumerate(c.yield_asserts):
+                    from .execcall import clause
+                    e2, props = clause(e)
+                    self.clause_props = props
+                    self.prove(s1, self.spec(e2, s1, {'yielded': v}, self.fn_old), 'yield', line, str(j), text=e2,
+                               stable_name='%s:yield:%d' % (self.cur_fn_stack[0].split(':')[1], j))
+                    self.clause_props = None
+                s1.ghost['__yields__'] = s1.ghost.get('__yields__', 0) + 1
+                yield s1, NORMAL
+            return
         if isinstance(node, ast.Expr):
             if isinstance(node.value, ast.Constant):
                 yield st, NORMAL
